@@ -783,7 +783,72 @@ def c05_19(ctx):
     return [ctx.ok(spec, "legacy / BIP143 / BIP341 chosen by the spent output's type in all %d (type, hash type, index) cells" % cells, fn, mod, key="digest-by-output-type")]
 
 
+def c05_20(ctx):
+    """which item of a script-path witness is the leaf script / the control block, with and without annex (rule shared with C12.10): the
+    tapleaf hash of the BIP341/342 digest is computed from that item"""
+    from rules.C12 import c12_10
+    return c12_10(ctx)
+
+
+DIGEST_FUNCTIONS = ("Tx.sig_hash", "Tx.sig_hash_legacy", "Tx.sig_hash_bip143", "Tx.sig_hash_bip341", "Tx.hash_prevouts", "Tx.hash_sequence", "Tx.hash_outputs",
+                    "Tx.sha_prevouts", "Tx.sha_amounts", "Tx.sha_script_pubkeys", "Tx.sha_sequences", "Tx.sha_outputs")
+SIGNED_INPUT_FIELDS = {"prev_tx", "prev_index", "sequence", "witness", "script_sig", "value", "script_pubkey"}
+
+
+def c05_21(ctx):
+    """DIGEST-SOURCE: a signature hash is a function of the transaction's current fields.  Of an input object the digest functions may read
+    the outpoint, the sequence, the ScriptSig, the witness and the spent output (value(), script_pubkey()); an attribute outside this set that
+    some other method assigns (`tx_in.tap_script`, left behind by initialize_p2tr_multisig) makes the digest depend on what was done to the
+    object before, not on what it now is"""
+    mod = ctx.repo.module("tx")
+    # attributes of an input that methods other than TxIn.__init__ / parse assign: `<name>.attr = …` where <name> is an element of self.tx_ins
+    assigned_elsewhere = {}
+    for qn, fn in mod.functions.items():
+        if qn in ("TxIn.__init__",):
+            continue
+        input_names = {"tx_in"} | {t.id for st in ast.walk(fn) if isinstance(st, ast.Assign) and len(st.targets) == 1 and isinstance(st.targets[0], ast.Name)
+                                   and "tx_ins" in ast.unparse(st.value) for t in [st.targets[0]]}
+        for st in ast.walk(fn):
+            if isinstance(st, ast.Assign):
+                for t in st.targets:
+                    if isinstance(t, ast.Attribute) and isinstance(t.value, ast.Name) and t.value.id in input_names and not t.attr.startswith("_"):
+                        assigned_elsewhere.setdefault(t.attr, qn)
+    out = []
+    n = 0
+    for qn in DIGEST_FUNCTIONS:
+        fn = mod.functions.get(qn)
+        if fn is None:
+            raise AnalysisError("digest function %s vanished" % qn)
+        input_names = {"tx_in"} | {st.targets[0].id for st in ast.walk(fn) if isinstance(st, ast.Assign) and len(st.targets) == 1 and isinstance(st.targets[0], ast.Name)
+                                   and "tx_ins" in ast.unparse(st.value)}
+        for lp in ast.walk(fn):
+            if isinstance(lp, (ast.For, ast.comprehension)) and "tx_ins" in ast.unparse(lp.iter):
+                tg = lp.target
+                input_names |= {x.id for x in ast.walk(tg) if isinstance(x, ast.Name)}
+        for x in ast.walk(fn):
+            if isinstance(x, ast.Attribute) and isinstance(x.ctx, ast.Load) and ((isinstance(x.value, ast.Name) and x.value.id in input_names) or
+                                                                              (isinstance(x.value, ast.Subscript) and "tx_ins" in ast.unparse(x.value))):
+                n += 1
+                if x.attr in SIGNED_INPUT_FIELDS:
+                    continue
+                if x.attr in assigned_elsewhere:
+                    out.append(ctx.bad("tx:" + qn, "the digest reads `%s`, an attribute of the input that %s assigns and that is not part of what is signed: after the witness (or "
+                                                   "any signed field) is changed, the digest still follows the value left behind -- it depends on the object's history" % (
+                                                       ast.unparse(x), assigned_elsewhere[x.attr]), x, mod, key="digest-source:" + x.attr))
+                else:
+                    out.append(ctx.err("tx:" + qn, "the digest reads `%s`, which is not one of the signed fields of an input" % ast.unparse(x), x, mod))
+    if n < 12:
+        raise AnalysisError("digest functions: only %d reads of input fields found" % n)
+    if not out:
+        out.append(ctx.ok("tx:Tx.sig_hash*", "%d reads of input attributes in the %d digest functions, all of signed fields (%s)" % (n, len(DIGEST_FUNCTIONS), ", ".join(sorted(SIGNED_INPUT_FIELDS))),
+                          key="digest-source"))
+    return out
+
+
+
 OBLIGATIONS = [
+    ("C05.21", "DIGEST-SOURCE", c05_21),
+    ("C05.20", "CELLS annex index (shared C12.10)", c05_20),
     ("C05.18", "OWNERSHIP (shared C06.13)", c05_18),
     ("C05.19", "CELLS digest dispatch", c05_19),
     ("C05.16", "PER-ITERATION digest (shared C06.16)", c05_16),
